@@ -99,8 +99,7 @@ impl<'a> RegExp<'a> {
 
     fn convert_expr_to_regex(expr: &Expression, config: &RegExpConfig) -> Regex {
         if config.is_output_colorized {
-            let color_replace_regex = Regex::new("\u{1b}\\[(?:\\d+;\\d+|0)m").unwrap();
-            Regex::new(&color_replace_regex.replace_all(&expr.to_string(), "")).unwrap()
+            Regex::new(&color_code_regex().replace_all(&expr.to_string(), "")).unwrap()
         } else {
             Regex::new(&expr.to_string()).unwrap()
         }
@@ -263,6 +262,10 @@ impl Display for RegExp<'_> {
     }
 }
 
+fn color_code_regex() -> Regex {
+    Regex::new("\u{1b}\\[(?:\\d+;\\d+|0)m").unwrap()
+}
+
 const VERBOSE_MODE_WHITESPACE: [char; 19] = [
     '\u{85}', '\u{a0}', '\u{1680}', '\u{2000}', '\u{2001}', '\u{2002}', '\u{2003}', '\u{2004}',
     '\u{2005}', '\u{2006}', '\u{2007}', '\u{2008}', '\u{2009}', '\u{200a}', '\u{2028}', '\u{2029}',
@@ -281,21 +284,16 @@ fn indent_regexp(regexp: String, config: &RegExpConfig) -> String {
             continue;
         }
 
-        let is_colored_line = line.starts_with("\u{1b}[");
+        let plain_line = color_code_regex().replace_all(line, "");
 
-        if nesting_level > 0
-            && ((is_colored_line && (line.contains('$') || line.contains(')')))
-                || (line == "$" || line.starts_with(')')))
-        {
+        if nesting_level > 0 && (plain_line == "$" || plain_line.starts_with(')')) {
             nesting_level -= 1;
         }
 
         let indentation = "  ".repeat(nesting_level);
         indented_regexp.push(format!("{indentation}{line}"));
 
-        if (is_colored_line && (line.contains('^') || (i > 0 && line.contains('('))))
-            || (line == "^" || (i > 0 && line.starts_with('(')))
-        {
+        if plain_line == "^" || (i > 0 && plain_line.starts_with('(')) {
             nesting_level += 1;
         }
     }
